@@ -19,6 +19,9 @@ def add_obligations(pack, tier):
                 'textbook ratios stated in C11; verified pointwise for one arbitrary device of one arbitrary model')
     from contracts import fn_decl as D
     run_contracts(pack, [(fn_pu.calc_pu_coeff('C01'),), (fn_pu.set_pu_coeff('C01'),), (D.declaration('C01', *D.LINE),)])
+    # the physical input data as read from a MATPOWER case (taps, phase shifts, shunts, loads, generators): contract shared with C13
+    from contracts import fn_io
+    run_contracts(pack, [(fn_io.mpc2system('C01'),)])
     # end-to-end bounded stand-in: power balance of converged solutions against the raw input data
     from contracts.packutil import native_guard
     from contracts import bounded_pflow_balance as BP
